@@ -269,13 +269,15 @@ Definition add_mm (gm : list (option val)) (st : option val) (b : blk) : blk * b
 (* ---------- the application's direct interface (C02: "blocks the application builds directly"): table entries through the nine
    add_* functions ([add_to]), items whose indices the application obtained from those calls ----------
    add_question_response_record(const QueryResponse&) / add_malformed_message(const MalformedMessage&): nothing happens to an item
-   with no member set; otherwise the earliest-time rule, push, statistics *)
+   with no member set; otherwise the earliest-time rule, push, statistics; a malformed message is refused when the malformed-messages
+   bit of the other-data hints in force is cleared (as the address events below: defect F19, repaired in /repo) *)
 Definition add_qr_item (item : list (option val)) (st : option val) (b : blk) : blk * bool :=
   if filled item then
     let b' := mkBlk (upd_earliest b (nth_o item 0%nat)) (b_bpi b) (b_bp b) (with_stats (b_stats b) st) (b_tb b)
                     (b_qrs b ++ [VR item]) (b_aecs b) (b_mms b) in (b', blk_full b')
   else (b, blk_full b).
 Definition add_mm_item (item : list (option val)) (st : option val) (b : blk) : blk * bool :=
+  if negb (N.testbit (h_other (b_bp b)) 0) then (b, false) else
   if filled item then
     let b' := mkBlk (upd_earliest b (nth_o item 0%nat)) (b_bpi b) (b_bp b) (with_stats (b_stats b) st) (b_tb b)
                     (b_qrs b) (b_aecs b) (b_mms b ++ [VR item]) in (b', blk_full b')
